@@ -1,16 +1,19 @@
 /-
-C08 (also C03 / C11), wp-easy — the A + C formulas of Gourdon's algorithm (src/gourdon/AC.cpp, AC_libdivide.cpp): what is PROVED
-about the real control flow (model PcModel/EasyAC.lean).
+C08 (also C03 / C11), wp-easy + wp-ac2 — the A + C formulas of Gourdon's algorithm (src/gourdon/AC.cpp, AC_libdivide.cpp): the real
+control flow (model PcModel/EasyAC.lean) computes `Spec.A + Spec.C`, the two terms of `gourdon_decomp`.
 
-Proved here: the `A` kernel (`A`, `A_64`, `A_128`) for ONE (segment, b) returns exactly the leaves of that segment with the
-1-vs-2 weighting, with every table read in bounds; the segment values add up over EVERY chain of segments; summed over the
-levels this is `Spec.A`, the `A` of `gourdon_decomp`.  NOT proved (correspondence only, streams `easyac_*` of
-pcv/props/c08_easy.py against the mirror AND against the defining sums `NT.A + NT.C`, which are proved `= Spec.A + Spec.C`):
-the `C1` recursion, the additivity of `C2` over the segments (the kernel itself IS proved per (segment, b): `ac_C2_segment_eq`),
-and the per-segment pruning of levels (`min_a … max_a`, `min_c2 … max_c2`)
-in `AC_OpenMP` — hence the names `…_partial` below.
+Proved here: the `A` kernel (`A`, `A_64`, `A_128`) and the `C2` kernel (`C2`, `C2_64`, `C2_128`) for ONE (segment, b) return exactly
+the leaves of that segment, every table read in bounds; the `C1<MU>` recursion started at any node returns the signed sum over
+the squarefree `m` below it (`c1_eq`); one iteration of the C1 loop is `Spec.Cterm` (`ac_C1_level_eq`); above `π√z` every `m` of
+`Spec.Cterm` is one of the second primes `C2` enumerates (`ac_C2_leaves_eq_Cterm`); the per-segment level pruning
+(`min_c2 … max_c2`, `min_a … max_a`) loses no leaf (`ac_segment_levels_pruned`); every leaf lies below `⌊√x⌋`
+(`ac_leaf_below_sqrt`); hence `ac_loop_eq_def` / `ac_entry_eq_def`: `AC_OpenMP` = `Spec.A + Spec.C` for every admissible
+`(y, z, k, x⋆)`, every distribution of the C1 iterations, every chain of segments covering `[0, ⌊√x⌋)` processed in any order, both
+division variants (AC.cpp, AC_libdivide.cpp).
 -/
 import PcProofs.EasyACEx
+import PcProofs.EasyAC8
+import PcProofs.EasyAC9
 import PcModel.Drv.EasyAC
 
 namespace Pc.C08EasyAC
@@ -86,11 +89,11 @@ theorem ac_segment_additive {S : Finset ℕ} (g : ℕ → ℕ) (F : ℕ → ℤ)
       = ∑ j ∈ S.filter (fun j => a ≤ g j ∧ g j < (a :: l).getLast (List.cons_ne_nil _ _)), F j :=
   chain_filter_sum g F l a h
 
-/-- **A over any chain of segments** (the `A` half of `ac_loop_eq_def`; partial: the per-segment pruning `min_a … max_a` of
-    AC_OpenMP and the C1 / C2 kernels are not covered): for EVERY strictly increasing chain `0 < l₁ < … < lₙ` whose top lies
+/-- **A over any chain of segments** (the `A` half of `ac_loop_eq_def`, one level, the kernel alone — the pruning `min_a … max_a`
+    is `ac_segment_levels_pruned`): for EVERY strictly increasing chain `0 < l₁ < … < lₙ` whose top lies
     above every leaf value of the level, each segment's kernel call succeeds and the values add up to `Aidx x y b`, the inner
     sum of `Spec.A` — the definition `gourdon_decomp` uses -/
-theorem ac_A_chain_total_partial (k : Kern) {t : NT} (hv : t.Valid) {size maxPi x y b : ℕ} (hb1 : 1 ≤ b) (hy : 1 ≤ y)
+theorem ac_A_chain_total (k : Kern) {t : NT} (hv : t.Valid) {size maxPi x y b : ℕ} (hb1 : 1 ≤ b) (hy : 1 ≤ y)
     (hps : p b ≤ Nat.sqrt (x / p b)) (hsm : Nat.sqrt (x / p b) ≤ maxPi) (hmb : maxPi ≤ t.bound)
     (hm64 : maxPi ≤ ITy.u64.maxVal) (hsz : Nat.primeCounting (Nat.sqrt (x / p b)) < size)
     (l : List ℕ) (hl : (0 :: l).Pairwise (· < ·))
@@ -101,11 +104,11 @@ theorem ac_A_chain_total_partial (k : Kern) {t : NT} (hv : t.Valid) {size maxPi 
     ((chainPairs (0 :: l)).map fun lh => aSeg x y b lh.1 lh.2).sum = Aidx x y b :=
   acA_chain_total k hv hb1 hy hps hsm hmb hm64 hsz l hl htb ht64 htop
 
-/-- **C2 over any chain of segments** (partial w.r.t. `ac_loop_eq_def`: the bridge from `c2Set` — the second primes `p j` with
-    `b < j`, `p j ≤ min(x / q², y)`, `x / q³ < p j`, `q = p b` — to the `μ`-presentation `Spec.Cterm`, the level pruning and C1 are
-    not covered): for EVERY strictly increasing chain of segments from 0 to a top above the level's leaf values, every kernel call
+/-- **C2 over any chain of segments** (one level, the kernel alone; the bridge from `c2Set` — the second primes `p j` with
+    `b < j`, `p j ≤ min(x / q², y)`, `x / q³ < p j`, `q = p b` — to the `μ`-presentation `Spec.Cterm` is `ac_C2_leaves_eq_Cterm`,
+    the level pruning `ac_segment_levels_pruned`): for EVERY strictly increasing chain of segments from 0 to a top above the level's leaf values, every kernel call
     succeeds and the segment values add up to the sum over ALL of `c2Set` — no leaf twice, none lost, whatever the segment sizes -/
-theorem ac_C2_chain_total_partial (k : Kern) {t : NT} (hv : t.Valid) {size maxPi x y b : ℕ} (hb1 : 1 ≤ b)
+theorem ac_C2_chain_total (k : Kern) {t : NT} (hv : t.Valid) {size maxPi x y b : ℕ} (hb1 : 1 ≤ b)
     (hyM : y ≤ maxPi) (hmb : maxPi ≤ t.bound) (hm64 : maxPi < 2 ^ 64) (hsz : Nat.primeCounting y < size)
     (hpp : p b * p b ≤ ITy.u64.maxVal) (hs64 : Nat.sqrt (x / p b) ≤ ITy.u64.maxVal)
     (l : List ℕ) (hl : (0 :: l).Pairwise (· < ·))
@@ -122,10 +125,114 @@ theorem ac_C2_chain_total_partial (k : Kern) {t : NT} (hv : t.Valid) {size maxPi
 theorem ac_A_levels_total (x y w c3 : ℕ) :
     ∑ b ∈ Finset.Ioc (Nat.primeCounting w) (Nat.primeCounting c3), Aidx x y b = A x y w c3 := (A_eq_index x y w c3).symm
 
+
+/-! ### wp-ac2: C1, the bridge to `Spec.Cterm`, the level pruning, the whole of `AC_OpenMP` -/
+
+/-- **`c1_eq`** — `C1<MU>(xp, b, i, pi_y, m, min_m, max_m, primes, pi)` entered at ANY node `(i, m)` with any sign `MU` and
+    accumulator returns `acc - MU · (Σ_{S ⊆ (i, π y], min_m < m·∏S ≤ max_m} (-1)^|S| (π(xp / (m·∏S)) - b + 2) - [node itself])`: every
+    squarefree multiple of `m` by primes of larger index in `(min_m, max_m]` exactly once with the sign of `μ`; the early `return`
+    (`m128 > max_m`) loses no leaf (`c1G_break`); `.ok` = `primes[·]`, `pi[·]` in bounds, `(T) m * primes[i]` inside the operand
+    type, no `div` trap, no wrap of `pi[xpm] - b + 2` -/
+theorem c1_eq (k : Kern) {t : NT} (hv : t.Valid) {w : ITy} {size maxPi y xp b minM maxM : ℕ}
+    (hsz : Nat.primeCounting y < size) (hy : y ≤ t.bound) (hw : maxM * y ≤ w.maxVal) (hmb : maxPi ≤ t.bound)
+    (hm64 : maxPi < 2 ^ 64)
+    (hread : ∀ m', minM < m' → m' ≤ maxM → xp / m' ≤ maxPi ∧ b ≤ Nat.primeCounting (xp / m') + 2)
+    (mu : ℤ) (i m : ℕ) (acc : ℤ) (hm1 : 1 ≤ m) (hmM : m ≤ maxM) :
+    Easy.c1 k t w size maxPi (Nat.primeCounting y) xp b minM maxM mu i m acc
+      = .ok (acc - mu * (c1G xp b (Nat.primeCounting y) minM maxM i m - c1Node xp b minM maxM m)) :=
+  Easy.c1_eq k hv hsz hy hw hmb hm64 hread _ i rfl mu m acc hm1 hmM
+
+/-- the leaves below the root `(b, 1)` with the `min_m`, `max_m` of AC.cpp:250-259 are `Spec.Cterm x y z b` (all `m`, prime or not) -/
+theorem ac_C1_leaves_eq_Cterm (x y z b : ℕ) :
+    c1G (x / p b) b (Nat.primeCounting y) (min (max (x / p b / (p b * p b)) (z / p b)) (min (x / p b / p b) z))
+      (min (x / p b / p b) z) b 1 = Cterm x y z b :=
+  c1G_one_eq_Cterm x y z b
+
+/-- **one iteration `b ≤ π√z` of the C1 loop** returns `Spec.Cterm x y z b` (which `AC_OpenMP` subtracts) -/
+theorem ac_C1_level_eq {t : NT} (hv : t.Valid) {w : ITy} {size maxPi x y z b : ℕ} (hb1 : 1 ≤ b)
+    (hbz : b ≤ Nat.primeCounting (Nat.sqrt z)) (hyz : y ≤ z) (hzx : z ≤ x) (hsz : Nat.primeCounting y < size) (hbs : b < size)
+    (hzM : z ≤ maxPi) (hmb : maxPi ≤ t.bound) (hm63 : maxPi ≤ ITy.i64.maxVal) (hw : z * y ≤ w.maxVal) :
+    acC1Level t w size maxPi (Nat.primeCounting y) x z b = .ok (Cterm x y z b) :=
+  acC1Level_eq hv hb1 hbz hyz hzx hsz hbs hzM hmb hm63 hw
+
+/-- levels `p b ≤ ⌊(x/z)^(1/3)⌋` (below the C1 loop's start `pi_root3_xz + 1`) have no C-leaf -/
+theorem ac_C_empty_below_root3_xz {x y z b : ℕ} (hz : 0 < z) (hb : p b ≤ irootN 3 (x / z)) : Cterm x y z b = 0 :=
+  Cterm_eq_zero_low hz (irootN_spec 3 (x / z) (by omega)).1 hb
+
+/-- **above `π√z` every `m` of `Spec.Cterm` is a prime**: the level's C-leaves are the second primes `c2Set` of `C2`, `μ = -1` -/
+theorem ac_C2_leaves_eq_Cterm {x y z b : ℕ} (hyz : y ≤ z) (hb : Nat.primeCounting (Nat.sqrt z) < b) (hby : p b ≤ y) :
+    Cterm x y z b = - ∑ j ∈ c2Set x y b, ((Nat.primeCounting (x / p b / p j) : ℤ) - b + 2) :=
+  Cterm_eq_c2 hyz hb hby
+
+/-- **every A / C2 leaf lies in `[0, ⌊√x⌋)`**, the range the segments of `AC_OpenMP` cover: `p < q`, `x < q p³` (A: `x < p⁴` as
+    `p > x⋆ ≥ x^(1/4)`; C2: `x / p³ < q`) ⟹ `x / (p q) < ⌊√x⌋` -/
+theorem ac_leaf_below_sqrt {x p q : ℕ} (hx : 1 ≤ x) (hp : 1 ≤ p) (hpq : p < q) (h : x < q * p * p * p) :
+    x / p / q < Nat.sqrt x := leaf_lt_sqrt hx hp hpq h
+
+/-- **the level pruning of a segment loses no leaf** (AC.cpp:282-307): for EVERY segment `[low, high)`, `low < high ≤ ⌊√x⌋`, the
+    loops `b = min_c2 … max_c2`, `b = min_a … max_a` return the sums of the per-level segment values over ALL levels
+    `max(k, π√z) < b ≤ π x⋆` resp. `π x⋆ < b ≤ π ⌊x^(1/3)⌋` — the skipped levels (`b ≤ pi[isqrt(low)]`, `pi[min(xhigh / y, x⋆)]`,
+    `pi_root3_xy`, `pi[min(xhigh / high, x13)]`; `b > pi[isqrt(xlow)]`) have no leaf in the segment; every call `.ok` -/
+theorem ac_segment_levels_pruned (f : ACFile) {t : NT} {w : ITy} {x y z k xs maxAPrime : ℕ}
+    (g : GParams x y z k xs (irootN 3 x)) (hb : ACBounds t w x y z xs maxAPrime) {low high : ℕ} (hlh : low < high)
+    (hhs : high ≤ Nat.sqrt x) :
+    acSegment f t w (acPreVal x y z maxAPrime) x y k xs low high
+      = .ok (∑ b ∈ Finset.Ioc (max k (Nat.primeCounting (Nat.sqrt z))) (Nat.primeCounting xs), c2Seg x y b low high,
+             ∑ b ∈ Finset.Ioc (Nat.primeCounting xs) (Nat.primeCounting (irootN 3 x)), aSeg x y b low high) :=
+  acSegment_eq f g hb hlh hhs
+
+/-- **`ac_loop_eq_def`: `AC_OpenMP` = A + C** — for EVERY admissible `(y, z, k, x⋆)` (`GParams`: `x^(1/3) < y ≤ z ≤ √x`,
+    `x⋆` with `x < (x⋆+1)⁴`, `x < (x⋆+1) y²`, `x⋆ ≤ √(x/y)`, `k ≤ π x⋆`), every `max_a_prime ≥ ⌊√(x / x⋆)⌋`, tables as `AC_OpenMP`
+    sizes them (`ACBounds`), both files (`f`: AC.cpp / AC_libdivide.cpp with its per-`b` 64/128 dispatch), both operand
+    widths, EVERY distribution `c1sched` of the C1 iterations over the threads, EVERY strictly increasing chain
+    `0 = l₀ < l₁ < … < lₙ = ⌊√x⌋` of segment boundaries with the segments processed in ANY order (`segs` a permutation) -/
+theorem ac_loop_eq_def (f : ACFile) {t : NT} {w : ITy} {x y z k xs maxAPrime : ℕ} (g : GParams x y z k xs (irootN 3 x))
+    (hb : ACBounds t w x y z xs maxAPrime) {c1sched : List (List ℕ)}
+    (hs : IsSchedule (max k (Nat.primeCounting (irootN 3 (x / z))) + 1) (Nat.primeCounting (Nat.sqrt z)) c1sched)
+    (l : List ℕ) (hl : (0 :: l).Pairwise (· < ·)) (hlast : (0 :: l).getLast (List.cons_ne_nil _ _) = Nat.sqrt x)
+    {segs : List (ℕ × ℕ)} (hsegs : segs.Perm (chainPairs (0 :: l))) :
+    acOpenMP f t w x y z k xs maxAPrime c1sched segs = .ok (A x y xs (irootN 3 x) + C x y z k xs) :=
+  acOpenMP_eq f g hb hs l hl hlast hsegs
+
+/-- **`AC(x, y, z, k, threads)` = A + C** with `x⋆ = get_x_star_gourdon(x, y)`, on the parameter domain of `pi_gourdon`
+    (`x^(1/3) < y ≤ z ≤ √x`, `k ≤ π ⌊x^(1/4)⌋`), `x < 2^127` in the operand type, `x / y` an `int64_t`, a table reaching `z` and
+    `⌊√x⌋`; the C1 schedule in the model's own terms (`c1Lo … c1Hi`) -/
+theorem ac_entry_eq_def (f : ACFile) {t : NT} (hv : t.Valid) {w : ITy} {x y z k : ℕ} (hy : irootN 3 x < y) (hy2 : y * y ≤ x)
+    (hyz : y ≤ z) (hz : z * z ≤ x) (hk : k ≤ Nat.primeCounting (irootN 4 x)) (hx : x < 2 ^ 127) (hxw : x ≤ w.maxVal)
+    (hxy63 : x / y ≤ ITy.i64.maxVal) (hs : Nat.sqrt x ≤ t.bound) (hzb : z ≤ t.bound) (h63 : t.bound ≤ ITy.i64.maxVal)
+    {c1sched : List (List ℕ)} (hsched : IsSchedule (c1Lo t x z k) (c1Hi t z) c1sched)
+    (l : List ℕ) (hl : (0 :: l).Pairwise (· < ·)) (hlast : (0 :: l).getLast (List.cons_ne_nil _ _) = Nat.sqrt x)
+    {segs : List (ℕ × ℕ)} (hsegs : segs.Perm (chainPairs (0 :: l))) :
+    acEntry f t w x y z k c1sched segs = .ok (A x y (xStar x y) (irootN 3 x) + C x y z k (xStar x y)) := by
+  have g := gparams_xStar hy hy2 hyz hz hk
+  rw [c1Lo_eq hv g hzb, c1Hi_eq hv hzb] at hsched
+  exact acEntry_eq f g (acBounds_of hv hx hxw hxy63 hs hzb h63) hsched l hl hlast hsegs
+
+/-- the driver's segmentation (`uniformSegs`: every `get_work` hands out one segment of size `segSize`) is a chain
+    `0 < segSize < 2·segSize < … < top` -/
+theorem uniform_segments_are_chain {top ss : ℕ} (hss : 1 ≤ ss) (htop : 1 ≤ top) :
+    uniformSegs top ss = chainPairs (0 :: uniformBounds top ss) ∧ (0 :: uniformBounds top ss).Pairwise (· < ·) ∧
+    (0 :: uniformBounds top ss).getLast (List.cons_ne_nil _ _) = top := uniformSegs_chain hss htop
+
+/-- **what the ops `AC_loop` / `AC_plain` / `AC_segs` of pcdrv print IS `A + C`**: the mirror run with the round-robin C1 schedule of
+    `nt` threads and uniform segments of ANY size `segSize ≥ 1` -/
+theorem ac_loop_op (f : ACFile) {t : NT} (hv : t.Valid) {w : ITy} {x y z k : ℕ} (hy : irootN 3 x < y) (hy2 : y * y ≤ x)
+    (hyz : y ≤ z) (hz : z * z ≤ x) (hk : k ≤ Nat.primeCounting (irootN 4 x)) (hx : x < 2 ^ 127) (hxw : x ≤ w.maxVal)
+    (hxy63 : x / y ≤ ITy.i64.maxVal) (hs : Nat.sqrt x ≤ t.bound) (hzb : z ≤ t.bound) (h63 : t.bound ≤ ITy.i64.maxVal)
+    (nt : ℕ) {segSize : ℕ} (hss : 1 ≤ segSize) :
+    acEntry f t w x y z k (easySched (c1Lo t x z k) (c1Hi t z) nt) (uniformSegs (isqrtN x) segSize)
+      = .ok (A x y (xStar x y) (irootN 3 x) + C x y z k (xStar x y)) := by
+  have hx1 : 1 ≤ x := (gparams_facts (gparams_xStar hy hy2 hyz hz hk)).2.1
+  have htop : 1 ≤ Nat.sqrt x := Nat.le_sqrt.2 (by omega)
+  obtain ⟨e1, e2, e3⟩ := uniformSegs_chain hss htop
+  rw [isqrtN_eq, e1]
+  exact ac_entry_eq_def f hv hy hy2 hyz hz hk hx hxw hxy63 hs hzb h63
+    (staticSched1_isSchedule _ _ (lt_of_lt_of_le Nat.zero_lt_one (le_max_right nt 1))) _ e2 e3 (List.Perm.refl _)
+
 /-! ### non-vacuity -/
 
 /-- `x = 100000`, `y = 60`, level `b = 10` (`q = 29 > x⋆ = 28`), segments `[0, 240)`, `[240, 316)` (`316 = ⌊√x⌋`) -/
-example := ac_A_chain_total_partial .ld64 (NT.build_valid 2000) (size := 18) (maxPi := 100) (x := 100000) (y := 60) (b := 10)
+example := ac_A_chain_total .ld64 (NT.build_valid 2000) (size := 18) (maxPi := 100) (x := 100000) (y := 60) (b := 10)
   (by norm_num) (by norm_num)
   (by rw [p10]; exact Nat.le_sqrt.2 (by norm_num))
   (by rw [p10]; exact Nat.le_of_lt_succ (Nat.sqrt_lt.2 (by norm_num)))
@@ -148,7 +255,7 @@ example := ac_C2_segment_eq .ld64 (NT.build_valid 2000) (size := 18) (maxPi := 1
   (le_trans (Nat.sqrt_le_self _) (le_trans (Nat.div_le_self _ _) (by decide)))
   (by show 200 ≤ 2000 + 1; norm_num) (by norm_num)
 /-- level `b = 7` (`q = 17`), segments `[0, 240)`, `[240, 480)`: every leaf `x / (17 · p j)`, `j > 7`, is below `100000 / 17 / 19 = 309` -/
-example := ac_C2_chain_total_partial .ld128 (NT.build_valid 2000) (size := 18) (maxPi := 100) (x := 100000) (y := 60) (b := 7)
+example := ac_C2_chain_total .ld128 (NT.build_valid 2000) (size := 18) (maxPi := 100) (x := 100000) (y := 60) (b := 7)
   (by norm_num) (by norm_num) (by show 100 ≤ 2000; norm_num) (by norm_num)
   (by rw [show Nat.primeCounting 60 = 17 by decide]; norm_num) (by rw [p7]; decide)
   (le_trans (Nat.sqrt_le_self _) (le_trans (Nat.div_le_self _ _) (by decide)))
@@ -176,6 +283,39 @@ example := ac_A_segment_eq .plain128 (NT.build_valid 2000) (size := 18) (maxPi :
       have := Nat.monotone_primeCounting h
       omega)
   (by show 150 ≤ 2000 + 1; norm_num) (by norm_num)
+/-- `AC(100000, 60, 100, 2)` of AC_libdivide.cpp: C1 iterations round-robin over 3 threads, segments `[240, 316)`, `[0, 240)` in
+    this order -/
+example := ac_entry_eq_def .libdivide (NT.build_valid 2000) (w := .u64) (x := 100000) (y := 60) (z := 100) (k := 2)
+  (by rw [irootN_eq_of (r := 46) (by norm_num) (by norm_num) (by norm_num)]; norm_num)
+  (by norm_num) (by norm_num) (by norm_num)
+  (by rw [irootN_eq_of (r := 17) (by norm_num) (by norm_num) (by norm_num),
+        show Nat.primeCounting 17 = 7 by decide]; norm_num)
+  (by norm_num) (by decide) (by decide)
+  (by show Nat.sqrt 100000 ≤ 2000; exact (Nat.sqrt_lt.2 (by norm_num)).le) (by show 100 ≤ 2000; norm_num)
+  (by show 2000 ≤ _; decide) (staticSched1_isSchedule _ _ (nt := 3) (by norm_num))
+  [240, 316] (by simp) (by show 316 = Nat.sqrt 100000; exact Nat.eq_sqrt.2 ⟨by norm_num, by norm_num⟩)
+  (segs := [(240, 316), (0, 240)]) (List.Perm.swap _ _ _)
+/-- `C1` at level `b = 4` (`q = 7`) of `x = 100000`, `y = 60`, `z = 316`: `min_m = 291`, `max_m = 316`; the composite leaf `m = 13 · 23` -/
+example := c1_eq .plain64 (NT.build_valid 2000) (w := .u64) (size := 18) (maxPi := 316) (y := 60) (xp := 14285) (b := 4)
+  (minM := 291) (maxM := 316) (by rw [show Nat.primeCounting 60 = 17 by decide]; norm_num) (by show 60 ≤ 2000; norm_num)
+  (by decide) (by show 316 ≤ 2000; norm_num) (by norm_num)
+  (by intro m' h1 h2
+      have h3 : 14285 / m' ≤ 14285 / 292 := Nat.div_le_div_left h1 (by norm_num)
+      have h4 : 14285 / 316 ≤ 14285 / m' := Nat.div_le_div_left h2 (by omega)
+      have h5 := Nat.monotone_primeCounting h4
+      have h6 : Nat.primeCounting (14285 / 316) = 14 := by decide
+      constructor
+      · exact le_trans h3 (by norm_num)
+      · omega)
+  (-1) 4 1 0 (by norm_num) (by norm_num)
+example := ac_loop_op .plain (NT.build_valid 2000) (w := .u128) (x := 100000) (y := 60) (z := 100) (k := 2)
+  (by rw [irootN_eq_of (r := 46) (by norm_num) (by norm_num) (by norm_num)]; norm_num)
+  (by norm_num) (by norm_num) (by norm_num)
+  (by rw [irootN_eq_of (r := 17) (by norm_num) (by norm_num) (by norm_num),
+        show Nat.primeCounting 17 = 7 by decide]; norm_num)
+  (by norm_num) (by decide) (by decide)
+  (by show Nat.sqrt 100000 ≤ 2000; exact (Nat.sqrt_lt.2 (by norm_num)).le) (by show 100 ≤ 2000; norm_num)
+  (by show 2000 ≤ _; decide) 4 (segSize := 240) (by norm_num)
 
 end Pc.C08EasyAC
 
@@ -186,6 +326,17 @@ end Pc.C08EasyAC
 #print axioms Pc.C08EasyAC.ac_C2_index_lemma
 #print axioms Pc.C08EasyAC.ac_C2_segment_eq
 #print axioms Pc.C08EasyAC.ac_segment_additive
-#print axioms Pc.C08EasyAC.ac_A_chain_total_partial
-#print axioms Pc.C08EasyAC.ac_C2_chain_total_partial
+#print axioms Pc.C08EasyAC.ac_A_chain_total
+#print axioms Pc.C08EasyAC.ac_C2_chain_total
 #print axioms Pc.C08EasyAC.ac_A_levels_total
+#print axioms Pc.C08EasyAC.c1_eq
+#print axioms Pc.C08EasyAC.ac_C1_leaves_eq_Cterm
+#print axioms Pc.C08EasyAC.ac_C1_level_eq
+#print axioms Pc.C08EasyAC.ac_C_empty_below_root3_xz
+#print axioms Pc.C08EasyAC.ac_C2_leaves_eq_Cterm
+#print axioms Pc.C08EasyAC.ac_leaf_below_sqrt
+#print axioms Pc.C08EasyAC.ac_segment_levels_pruned
+#print axioms Pc.C08EasyAC.ac_loop_eq_def
+#print axioms Pc.C08EasyAC.ac_entry_eq_def
+#print axioms Pc.C08EasyAC.uniform_segments_are_chain
+#print axioms Pc.C08EasyAC.ac_loop_op
